@@ -53,7 +53,11 @@ AMBIENT = [
     ('KPickle', re.compile(r'\|\s*yamlfy\b')),
     ('KPlatform', re.compile(r'\bplatform_version\b')),
     ('KCwd', re.compile(r'\bcwd\b|\bgetcwd\b')),
-    ('KNsIter', re.compile(r'\bget_nested_namespaces\s*\(\s*\)(?!\s*\|\s*(natural_sort_namespace|sort)\b)')),
+    # a Jinja `| sort` is case-insensitive by default (names differing in case tie, input order kept): only
+    # natural_sort_namespace (its totality is the Python fact sf_natsort_total) or sort(case_sensitive=true) count as sorted
+    ('KNsIter', re.compile(r'\bget_nested_namespaces\s*\(\s*\)(?!\s*\|\s*(natural_sort_namespace\b|sort\s*\([^)]*case_sensitive\s*=\s*[Tt]rue))')),
+    ('KTmplSets', re.compile(r'\btemplate_sets\b')),
+    ('KTmplSets', re.compile(r'\bsearchpath\b|\bloader\b|\b_fsloader\b|\btemplates_dirs?\b')),
     ('KNsIter', re.compile(r'\b_nested_namespaces\b|\bget_all_(types|datatypes|namespaces)\b|\bcomposite_types\b')),
     ('KIncUnsorted', re.compile(r'\|\s*(includes|imports)\s*\(')),
 ]
@@ -315,6 +319,78 @@ def fact_audit_threaded() -> bool:
     return flag and plat
 
 
+def fact_template_sets_pure() -> bool:
+    """DSDLTemplateLoader.get_template_sets builds its tuples from constants, the templates package name and its version
+    only: no file-system loader, search path or path operation is mentioned"""
+    f = find_def(parse('jinja/loaders.py'), 'DSDLTemplateLoader', 'get_template_sets')
+    allowed_attrs = {'_templates_package_name', 'version', 'append'}
+    allowed_names = {'self', 'template_sets', 'vr', 'VersionReader', 'typing', 'str', 'int', 'None'}
+    for node in ast.walk(f):
+        if isinstance(node, ast.Attribute) and node.attr not in allowed_attrs and not ast.unparse(node).startswith('typing.'):
+            return False
+        if isinstance(node, ast.Name) and node.id not in allowed_names:
+            return False
+        if isinstance(node, (ast.For, ast.While, ast.ListComp, ast.GeneratorExp, ast.Lambda, ast.JoinedStr)):
+            return False
+    return True
+
+
+# -- keyed sorts ---------------------------------------------------------------------------------------------------------
+SORT_SITE_MAP = {('lang/html/__init__.py', '_natural_sort'): 'SortHtmlNatural'}
+
+
+def key_is_total(key: ast.AST, scope: ast.AST) -> bool:
+    """the key function returns a tuple whose LAST component is the element itself / the caller's key of the element
+    (a tie-breaker by exact name), or it is the identity"""
+    fn = None
+    if isinstance(key, ast.Lambda):
+        arg = key.args.args[0].arg if key.args.args else None
+        body = key.body
+        if isinstance(body, ast.Name) and body.id == arg:
+            return True
+        return isinstance(body, ast.Tuple) and len(body.elts) >= 2 and isinstance(body.elts[-1], ast.Name) and body.elts[-1].id == arg
+    if isinstance(key, ast.Name):
+        for node in ast.walk(scope):
+            if isinstance(node, ast.FunctionDef) and node.name == key.id:
+                fn = node
+    if fn is None or not fn.args.args:
+        return False
+    arg = fn.args.args[0].arg
+    raw = {arg}
+    for st in fn.body:       # names bound to the raw element or to key(<element>)
+        if isinstance(st, ast.Assign) and len(st.targets) == 1 and isinstance(st.targets[0], ast.Name):
+            v = st.value
+            if (isinstance(v, ast.Name) and v.id in raw) or (isinstance(v, ast.Call) and len(v.args) == 1 and isinstance(v.args[0], ast.Name)
+                                                              and v.args[0].id in raw and isinstance(v.func, ast.Name)):
+                raw.add(st.targets[0].id)
+    rets = [n for n in ast.walk(fn) if isinstance(n, ast.Return)]
+    if len(rets) != 1 or rets[0].value is None:
+        return False
+    v = rets[0].value
+    return isinstance(v, ast.Tuple) and len(v.elts) >= 2 and isinstance(v.elts[-1], ast.Name) and v.elts[-1].id in raw
+
+
+def keyed_sorts(trees: typing.Dict[str, ast.Module]) -> typing.List[typing.Tuple[str, bool, str]]:
+    out = []
+    for rel, tree in trees.items():
+        for fn in [n for n in ast.walk(tree) if isinstance(n, ast.FunctionDef)]:
+            for node in ast.walk(fn):
+                if not isinstance(node, ast.Call):
+                    continue
+                is_sort = (isinstance(node.func, ast.Name) and node.func.id == 'sorted') or \
+                          (isinstance(node.func, ast.Attribute) and node.func.attr == 'sort')
+                keys = [k.value for k in node.keywords if k.arg == 'key']
+                if not is_sort or not keys:
+                    continue
+                # attribute the call to the innermost function that contains it
+                inner = [g for g in ast.walk(fn) if isinstance(g, ast.FunctionDef) and g is not fn and any(x is node for x in ast.walk(g))]
+                if inner:
+                    continue
+                site = SORT_SITE_MAP.get((rel, fn.name), 'SortUnknown')
+                out.append((site, key_is_total(keys[0], fn), '%s %s line %d' % (rel, fn.name, node.lineno)))
+    return out
+
+
 def fact_gzip_mtime_fixed() -> bool:
     f = find_def(parse('lang/py/__init__.py'), 'filter_pickle')
     calls = [n for n in ast.walk(f) if isinstance(n, ast.Call) and ast.unparse(n.func) in ('gzip.compress', 'gzip.GzipFile', 'gzip.open')]
@@ -521,7 +597,11 @@ def build() -> typing.Tuple[str, dict]:
         'sf_clock_only_now_utc': clock_ok,
         'sf_audit_threaded': fact_audit_threaded(),
         'sf_gzip_mtime_fixed': fact_gzip_mtime_fixed(),
+        'sf_template_sets_pure': fact_template_sets_pure(),
     }
+    sorts = keyed_sorts(trees)
+    nat = [t for s_, t, _ in sorts if s_ == 'SortHtmlNatural']
+    facts['sf_natsort_total'] = bool(nat) and all(nat)
     iters = set_iterations(trees)
     lines = [gen.HEADER % 'src/nunavut/lang/{c,cpp,py,html}/{templates,support}/*.j2 and src/nunavut/**/*.py (tools/translators/gen_c07.py)',
              'From Coq Require Import List NArith.', 'From Verif Require Import Repro.', 'Import ListNotations.', 'Open Scope N_scope.', '']
@@ -538,12 +618,16 @@ def build() -> typing.Tuple[str, dict]:
     lines.append('Definition gen_set_iters : list (set_site * bool) := [')
     lines.append(';\n'.join('  (%s, %s)  (* %s *)' % (s, coq_bool(srt), d) for s, srt, d in iters))
     lines.append('].\n')
+    lines.append('Definition gen_sorts : list (sort_site * bool) := [')
+    lines.append(';\n'.join('  (%s, %s)  (* %s *)' % (a, coq_bool(b), d) for a, b, d in sorts))
+    lines.append('].\n')
     lines.append('Definition gen_ambient_reads : list (read_kind * read_site) := [')
     lines.append(';\n'.join('  (%s, %s)  (* %s *)' % (k, s, d) for k, s, d in reads))
     lines.append('].')
     info = {'sites': [dict(lang=a, group=b, kind=c, gated=d, line=e, file=f) for a, b, c, d, e, f in sites], 'facts': facts,
             'set_iters': [dict(site=a, sorted=b, where=c) for a, b, c in iters],
-            'reads': [dict(kind=a, site=b, where=c) for a, b, c in reads]}
+            'reads': [dict(kind=a, site=b, where=c) for a, b, c in reads],
+            'sorts': [dict(site=a, total=b, where=c) for a, b, c in sorts]}
     return '\n'.join(lines) + '\n', info
 
 
